@@ -75,3 +75,56 @@ Theorem C04_segment_piece_is_the_offset_rectangle_partial : forall out a b n hw,
 Proof. exact segment_piece_points. Qed.
 Print Assumptions C04_segment_piece_is_the_offset_rectangle_partial.
 (* further lemmas of the same file: bevel_points, miter_points, miter_beyond_limit_points, round_join_points, square_cap_points, butt_cap_points, round_cap_points, stroke_op_zero_length *)
+(* ---- the statement itself on the Manhattan sub-domain, where binary32 is exact (StrokeHypot.v, StrokeExact.v) ----
+   Domain: integer vertices |n| <= 2048, horizontal / vertical segments (zero-length ones skipped as the stroker does), width
+   2h with 1 <= h <= 1024, butt or square caps, bevel or miter joins with any miter limit. *)
+Require Import RQ.Contains RQ.DashZ RQ.DashPos RQ.DashSpec RQ.DashExact RQ.StrokeHypot RQ.StrokeExact.
+
+(* the f32 outline is the image of an integer outline, op for op: offset rectangles of the segments, square cap
+   rectangles, bevel triangles or miter squares on the outer side of every right-angle turn *)
+Theorem C04_outline_is_exact_on_manhattan_paths : forall st k p0 pts w,
+  style_ok st k -> pt_ok p0 -> Forall pt_ok pts -> poly_axis p0 pts ->
+  stroke_to_path (mk_path (MoveTo (ept p0) :: map LineTo (map ept pts)) w) st =
+  Ok (mk_path (map eop (zoutline_ops (zstroke_open k p0 pts))) NonZero).
+Proof. exact stroke_exact_open. Qed.
+Print Assumptions C04_outline_is_exact_on_manhattan_paths.
+Theorem C04_outline_is_exact_on_closed_manhattan_paths : forall st k p0 pts w,
+  style_ok st k -> pt_ok p0 -> Forall pt_ok pts -> poly_axis p0 (pts ++ [p0]) ->
+  stroke_to_path (mk_path (MoveTo (ept p0) :: map LineTo (map ept pts) ++ [Close]) w) st =
+  Ok (mk_path (map eop (zoutline_ops (zstroke_closed k p0 pts))) NonZero).
+Proof. exact stroke_exact_closed. Qed.
+Print Assumptions C04_outline_is_exact_on_closed_manhattan_paths.
+
+(* every contour is one of the statement's shapes (rectangle around a segment, cap rectangle, join triangle / square) ... *)
+Theorem C04_manhattan_contours_are_the_statement_s_shapes : forall k p0 pts,
+  pt_ok p0 -> Forall pt_ok pts -> poly_axis p0 pts -> Forall (zshape (k_h k)) (zstroke_open k p0 pts).
+Proof. exact zstroke_open_shapes. Qed.
+Print Assumptions C04_manhattan_contours_are_the_statement_s_shapes.
+
+(* ... all of ONE orientation (negative shoelace area, or a degenerate join of area 0), whatever the direction of the path
+   and of its turns: no contour can cancel another under the NonZero rule *)
+Theorem C04_manhattan_contours_have_one_orientation : forall k p0 pts,
+  1 <= k_h k -> pt_ok p0 -> Forall pt_ok pts -> poly_axis p0 pts ->
+  Forall (fun c => area2 c < 0 \/ (area2 c = 0 /\ degenerate_join (k_h k) c)) (zstroke_open k p0 pts).
+Proof. exact zstroke_open_orientation. Qed.
+Print Assumptions C04_manhattan_contours_have_one_orientation.
+
+(* THE STATEMENT: the NonZero interior of the outline is the UNION of the pieces - at every integer point the winding
+   number of the whole outline is minus the number of contours around the point, so the point is inside iff some
+   rectangle / cap / join contains it (open and closed subpaths) *)
+Theorem C04_stroke_is_the_union_of_its_pieces_on_manhattan_paths : forall k p0 pts X Y,
+  1 <= k_h k -> pt_ok p0 -> Forall pt_ok pts -> poly_axis p0 pts ->
+  let cs := zstroke_open k p0 pts in
+  let w := winding_number (path_edges (zoutline_ops cs) None None) X Y in
+  w = - Z.of_nat (length (filter (fun c => cwn c X Y =? -1) cs)) /\
+  (inside NonZero w = true <-> exists c, In c cs /\ cwn c X Y = -1).
+Proof. exact zstroke_open_union. Qed.
+Print Assumptions C04_stroke_is_the_union_of_its_pieces_on_manhattan_paths.
+Theorem C04_closed_stroke_is_the_union_of_its_pieces_on_manhattan_paths : forall k p0 pts X Y,
+  1 <= k_h k -> pt_ok p0 -> Forall pt_ok pts -> poly_axis p0 (pts ++ [p0]) ->
+  let cs := zstroke_closed k p0 pts in
+  let w := winding_number (path_edges (zoutline_ops cs) None None) X Y in
+  w = - Z.of_nat (length (filter (fun c => cwn c X Y =? -1) cs)) /\
+  (inside NonZero w = true <-> exists c, In c cs /\ cwn c X Y = -1).
+Proof. exact zstroke_closed_union. Qed.
+Print Assumptions C04_closed_stroke_is_the_union_of_its_pieces_on_manhattan_paths.
